@@ -275,6 +275,20 @@ def cacheseq(prop, tier, seed):
         cov["traces_validated_against_impl"] += ares["evaluations"]
         cov["distinct_nontrivial"] += ares["distinct_nontrivial"]
         cov["rule"] += "; plus seeded histories of spec/CacheAuto.tla on a real auto-refresh cache (free-running and watcher-held pacings), polled until equal to a fresh cache"
+    if prop == "C01":
+        # unbounded in the directory list: the scan (slot, conflicts set, F5 repair) computes the precedence rule for
+        # ARBITRARY integer priorities - an inductive invariant discharged by Apalache; with the F5 defect the step fails
+        ap = parallel(lambda: vlib.run_apalache("ScanInd", "CInit", "Init", "IndInv", 0),
+                      lambda: vlib.run_apalache("ScanInd", "CInit", "IndInit", "IndInv", 1),
+                      lambda: vlib.run_apalache("ScanInd", "CInit", "IndInit", "AtEnd", 0),
+                      lambda: vlib.run_apalache("ScanInd", "CInitBug", "IndInit", "IndInv", 1))
+        if ap[:3] != ["ok", "ok", "ok"]:
+            raise ToolFailure("SPEC-DRIFT: the inductive invariant of spec/ScanInd.tla does not hold: %s" % ap)
+        if ap[3] != "violated":
+            raise ToolFailure("vacuous: ScanInd's induction step holds even with the F5 defect")
+        cov["inductive_invariant"] = ("spec/ScanInd.tla, Apalache: Init => IndInv; IndInv /\\ Next => IndInv'; IndInv => AtEnd (index = declarative rule when "
+                                      "the scan is complete) over 6 abstract files with arbitrary integer priorities (any number and order of "
+                                      "directories); with BUG_F5 the induction step is refuted")
     if prop in ("C01", "C13"):
         # "unreadable" files and directories (EACCES): the populations and histories of the permission universe,
         # replayed by a harness process that has given up root so that file modes are enforced
